@@ -48,6 +48,14 @@ def gen_cases(tier, seed):
                 [0xab, 0xaa, 3, 0, 0, 0, 0x88, 0x8e], [0, 0, 0, 0, 0, 0, 0x88, 0x8e]):
         for qos in (0, 1):
             cases.append(frame(rng, qos, 0x13ca, 2, 2, llc=llc))
+    # every octet of the LLC/SNAP header perturbed on its own (one bit, the top bit, zeroed, all ones, every value in thorough)
+    good = [0xaa, 0xaa, 3, 0, 0, 0, 0x88, 0x8e]
+    for pos in range(8):
+        vals = {good[pos] ^ 1, good[pos] ^ 0x80, good[pos] ^ 0x10, 0, 0xff, (good[pos] + 1) & 255} if q else set(range(256))
+        for v in sorted(vals - {good[pos]}):
+            l = list(good); l[pos] = v
+            for qos in (0, 1):
+                cases.append(frame(rng, qos, 0x13ca, 2, 2, llc=l))
     for fc0 in (0x80, 0x40, 0xb4, 0x48, 0xc8, 0xd8, 0x0c):     # non-data, null data, reserved QoS subtype
         cases.append(frame(rng, 0, 0x008a, 3, 3, fc0=fc0))
     for _ in range(1000 if q else 30000):
